@@ -1,0 +1,49 @@
+//! Verification hooks. Compiled only with the `verif` cargo feature, which nothing enables by
+//! default; with the feature off this module and every call into it do not exist.
+use std::cell::Cell;
+use std::sync::RwLock;
+
+thread_local! {
+    static VIRTUAL_CLOCK: Cell<Option<u64>> = const { Cell::new(None) };
+}
+
+/// Callback type: `(point name, first value, second value)`.
+pub type Observer = Box<dyn Fn(&'static str, u64, u64) + Send + Sync>;
+
+static OBSERVER: RwLock<Option<Observer>> = RwLock::new(None);
+
+/// Switch the calling thread's virtual clock on (`Some(ns)`) or off (`None`).
+pub fn set_virtual_clock(value: Option<u64>) {
+    VIRTUAL_CLOCK.with(|c| c.set(value));
+}
+
+/// The calling thread's virtual clock, if switched on.
+#[must_use]
+pub fn virtual_clock() -> Option<u64> {
+    VIRTUAL_CLOCK.with(Cell::get)
+}
+
+/// Advance the calling thread's virtual clock (saturating); no effect when it is off.
+pub fn advance_virtual_clock(delta: u64) {
+    VIRTUAL_CLOCK.with(|c| {
+        if let Some(v) = c.get() {
+            c.set(Some(v.saturating_add(delta)));
+        }
+    });
+}
+
+/// Install (or remove) the process-wide observer called at every named point.
+pub fn set_observer(observer: Option<Observer>) {
+    if let Ok(mut guard) = OBSERVER.write() {
+        *guard = observer;
+    }
+}
+
+/// A named pause/observe point. Does nothing unless an observer is installed.
+pub fn point(name: &'static str, a: u64, b: u64) {
+    if let Ok(guard) = OBSERVER.read() {
+        if let Some(f) = guard.as_ref() {
+            f(name, a, b);
+        }
+    }
+}
